@@ -63,9 +63,14 @@ CLI_SCENARIOS = (
     ('build_gfx', 'png', 'valid', 'default'),
     ('build_lua_format', 'p8', 'valid', 'formatter'),
     ('build_lua_format', 'png', 'valid', 'formatter'),
+    # two carts in one invocation: the first one's output is new, the second one's exists
+    ('luamin_two', 'p8', 'valid', 'minify'),
+    ('writep8_two', 'png', 'valid', 'default'),
+    ('luafmt_two', 'p8', 'garbage', 'formatter'),
 )
 CLI_LABEL = {'luafmt_overwrite': 'cli_luafmt_overwrite', 'luamin': 'cli_luamin', 'writep8': 'cli_writep8',
-             'build_lua': 'cli_build', 'build_gfx': 'cli_build', 'build_lua_format': 'cli_build', 'lib': 'path_lib'}
+             'build_lua': 'cli_build', 'build_gfx': 'cli_build', 'build_lua_format': 'cli_build', 'lib': 'path_lib',
+             'luamin_two': 'cli_two_carts', 'writep8_two': 'cli_two_carts', 'luafmt_two': 'cli_two_carts'}
 
 
 def lib_scenarios():
@@ -81,6 +86,11 @@ def lib_scenarios():
                 else:
                     out.append({'path': 'lib', 'fmt': fmt, 'dest': dest, 'writer': w, 'garbage': 0, 'idx': i})
                     i += 1
+    # .p8.png with the label taken from another file (the documented label_fname argument)
+    for dest in ('absent', 'valid'):
+        for w in WRITERS:
+            out.append({'path': 'lib', 'fmt': 'png', 'dest': dest, 'writer': w, 'garbage': 0, 'idx': i, 'label_from': True})
+            i += 1
     return out
 
 
@@ -90,8 +100,8 @@ def cli_scenarios():
 
 
 def scn_key(scn):
-    return '%s/%s/%s/%s/g%d/%s' % (scn['path'], scn['fmt'], scn['dest'], scn['writer'], scn.get('garbage', 0),
-                                   bytes(scn['salt']).hex())
+    return '%s%s/%s/%s/%s/g%d/%s' % (scn['path'], '+label_fname' if scn.get('label_from') else '', scn['fmt'],
+                                     scn['dest'], scn['writer'], scn.get('garbage', 0), bytes(scn['salt']).hex())
 
 
 # ------------------------------------------------------------------------------------ cart material
@@ -182,6 +192,9 @@ class Scenario:
         self.before = None
         self.listing = None
         self.argv = None
+        self.extra = []          # other outputs the call legitimately creates (first cart of a two-cart run)
+        self.good_extra = {}
+        self.label_from = None
 
     def setup(self, td):
         m, scn = self.m, self.scn
@@ -199,6 +212,14 @@ class Scenario:
                       else expand(b'junk' + m['seed'], 64 + m['seed'][-1]))
         if self.path == 'lib':
             dest = 'cart' + ext
+            if scn.get('label_from'):
+                files['label_src.p8.png'] = cart_file('png', m['mem2'], b'l=1\n', 8, None, b'L' + m['seed'])
+                self.label_from = os.path.join(td, 'label_src.p8.png')
+        elif self.path.endswith('_two'):
+            files['a' + ext] = other(self.fmt)
+            files['x' + ext] = main_cart(self.fmt)
+            dest = 'x_fmt' + ext
+            self.extra = [os.path.join(td, 'a_fmt' + ext)]
         elif self.path == 'luafmt_overwrite':
             dest = 'x' + ext
             before = main_cart(self.fmt)
@@ -223,6 +244,9 @@ class Scenario:
         p = lambda n: os.path.join(td, n)
         if self.path == 'luafmt_overwrite':
             self.argv = ['luafmt', '--overwrite', '--indentwidth', str(m['indent']), self.dest]
+        elif self.path.endswith('_two'):
+            self.argv = [self.path[:-4]] + (['--indentwidth', str(m['indent'])] if self.path == 'luafmt_two' else []) + \
+                        [p('a' + ext), p('x' + ext)]
         elif self.path == 'luamin':
             self.argv = ['luamin', p('x' + ext)]
         elif self.path == 'writep8':
@@ -245,6 +269,9 @@ class Scenario:
         else:
             with open(self.dest, 'wb') as fh:
                 fh.write(self.before)
+        for e in self.extra:
+            if os.path.exists(e):
+                os.unlink(e)
 
     def read_dest(self):
         if not os.path.exists(self.dest):
@@ -255,7 +282,7 @@ class Scenario:
     def has_label(self):
         if self.path == 'lib':
             return self.m['label'] is not None
-        if self.path in ('luafmt_overwrite', 'luamin', 'writep8'):
+        if self.path in ('luafmt_overwrite', 'luamin', 'writep8') or self.path.endswith('_two'):
             return self.fmt == 'p8' and self.m['label'] is not None
         return self.fmt == 'p8' and self.scn['dest'] == 'valid' and self.m['label2'] is not None
 
@@ -273,6 +300,8 @@ class Scenario:
                 kw['lua_writer_cls'] = Wf
             if self.writer == 'formatter':
                 kw['lua_writer_args'] = {'indentwidth': m['indent']}
+            if self.label_from:
+                kw['label_fname'] = self.label_from
             pfile.to_file(g, self.dest, **kw)
             return 0
         from pico8 import tool
@@ -366,6 +395,18 @@ def judge(sc, spec, inj, err, rc, good, td, case):
             raise Violation('%s: the call failed (%s) and the destination changed: %d bytes before, %d after (%s)'
                             % (what, show(repr(err) if err else 'rc=%r' % rc, 60), len(sc.before), len(after),
                                show(after, 60)), case, 'dest-changed')
+        for e in sc.extra:
+            # the output of an earlier cart of the same invocation: absent, or complete
+            if os.path.exists(e):
+                with open(e, 'rb') as fh:
+                    data = fh.read()
+                if data != sc.good_extra.get(e):
+                    raise Violation('%s: the call failed (%s) and left %s, which did not exist before, with %d bytes that '
+                                    'are not the complete output for that cart' % (what, show(repr(err) if err else 'rc=%r' % rc, 60),
+                                                                                    os.path.basename(e), len(data)), case, 'dest-created')
+                os.unlink(e)
+                listing = sorted(os.listdir(td))
+                labs.append('earlier_cart_output_complete')
         if listing != sc.listing:
             raise Violation('%s: the failed call changed the directory listing: %r -> %r'
                             % (what, sc.listing, listing), case, 'stray-files')
@@ -391,7 +432,7 @@ def judge(sc, spec, inj, err, rc, good, td, case):
                             'neither its previous content nor the fault-free result (%s bytes: %s)'
                             % (what, inj.fired_what, 'no' if after is None else len(after), show(after or b'', 60)),
                             case, 'success-after-fault')
-    extra = [n for n in listing if n not in sc.listing]
+    extra = [n for n in listing if n not in sc.listing and n not in [os.path.basename(e) for e in sc.extra]]
     if extra and extra != [os.path.basename(sc.dest)]:
         raise Violation('%s: stray files %r' % (what, extra), case, 'stray-files')
     sc.reset()
@@ -409,6 +450,11 @@ def dry_run(sc, td, case):
         raise Violation('%s %s: fault-free call returned success but wrote no destination' % (sc.path, EXT[sc.fmt]),
                         case, 'no-output')
     n = inj.count
+    for e in sc.extra:
+        if not os.path.exists(e):
+            raise Violation('%s %s: fault-free call did not write %s' % (sc.path, EXT[sc.fmt], os.path.basename(e)), case, 'no-output')
+        with open(e, 'rb') as fh:
+            sc.good_extra[e] = fh.read()
     sc.reset()
     return n, good
 
@@ -455,6 +501,8 @@ def post_batch(sc, good, case):
 
 def base_labels(sc):
     labs = [CLI_LABEL[sc.path], 'fmt_' + sc.fmt, 'dest_' + sc.scn['dest'], 'writer_' + sc.writer]
+    if sc.scn.get('label_from'):
+        labs.append('label_fname_given')
     if sc.fmt == 'p8':
         labs.append('label' if sc.has_label() else 'no_label')
     return labs
@@ -599,7 +647,8 @@ def vacuity(total, tier):
             'lua_writer_unparseable', 'section_raises', 'compress_raises', 'png_writer_raises', 'label_unreadable',
             'label_unreadable_failed', 'cli_luafmt_overwrite', 'cli_luamin', 'cli_writep8', 'cli_build', 'path_lib',
             'fmt_p8', 'fmt_png', 'dest_absent', 'dest_valid', 'dest_garbage', 'writer_default', 'writer_minify',
-            'writer_formatter', 'label', 'no_label', 'post_batch_ok',
+            'writer_formatter', 'label', 'no_label', 'post_batch_ok', 'cli_two_carts', 'earlier_cart_output_complete',
+            'label_fname_given',
             'stream_write:p8:absent', 'stream_write:p8:valid', 'stream_write:p8:garbage',
             'stream_write:png:absent', 'stream_write:png:valid']
     need += ['section_raises_' + s for s in ('gfx', 'label', 'gff', 'map', 'sfx', 'music')]
